@@ -134,16 +134,22 @@ def gen_constraint(rng, dim, box=None):
 
 
 # ------------------------------------------------------------------ penalty zoo
+def _dot(a, x):
+    # a.x - b cancels, and a penalty multiplies what is left by k: the harness-side condition and the reference must therefore not depend on
+    # whether mystic hands over a list or an array (builtin sum is compensated for python floats only), so both convert to float first
+    return sum(float(ai) * float(xi) for ai, xi in zip(a, x))
+
+
 def make_penalty(spec):
     if spec is None: return None
     kind = spec[0]
     if kind == 'plain':       # k*max(0, a.x - b)^2
         a, b, k = spec[1:4]
-        return lambda x: float(k * max(0.0, sum(ai * xi for ai, xi in zip(a, x)) - b) ** 2)
+        return lambda x: float(k * max(0.0, _dot(a, x) - b) ** 2)
     if kind == 'mystic':
         import mystic.penalty as mp
         ptype, a, b, k = spec[1:5]
-        cond = lambda x: float(sum(ai * xi for ai, xi in zip(a, x)) - b)
+        cond = lambda x: float(_dot(a, x) - b)
         return getattr(mp, ptype)(cond, k=k)(lambda x: 0.0)
     raise KeyError(kind)
 
@@ -154,9 +160,9 @@ def ref_penalty(spec):
     kind = spec[0]
     if kind == 'plain':
         a, b, k = spec[1:4]
-        return lambda x: float(k * max(0.0, sum(ai * xi for ai, xi in zip(a, x)) - b) ** 2)
+        return lambda x: float(k * max(0.0, _dot(a, x) - b) ** 2)
     ptype, a, b, k = spec[1:5]
-    g = lambda x: float(sum(ai * xi for ai, xi in zip(a, x)) - b)
+    g = lambda x: float(_dot(a, x) - b)
     if ptype == 'quadratic_inequality': return lambda x: float(2 * k) * max(0.0, g(x)) ** 2
     if ptype == 'linear_inequality': return lambda x: float(2 * k) * max(0.0, g(x))
     if ptype == 'quadratic_equality': return lambda x: float(k) * g(x) ** 2
